@@ -454,13 +454,12 @@ func handlerReachable(p *Prog) map[*ssa.Function]bool {
 
 func checkC07Reread(p *Prog, r *Report, ru *Rule, sh *ssa.Function) {
 	tmplf := p.Field(hsrvPkg, "Server", "tmplf")
-	rt := p.Func(hsrvPkg, "Server", "readTemplate")
-	if nil == tmplf || nil == rt {
-		ru.Unproven("readTemplate", token.NoPos, "readTemplate or Server.tmplf not found")
+	if nil == tmplf {
+		ru.Unproven("readTemplate", token.NoPos, "Server.tmplf not found")
 		return
 	}
-	r.Saw("func " + fnName(rt))
-	/* The handler obtains its template from readTemplate in this call. */
+	/* (The template reader is folded into the handler: the rule follows the
+	handler's own paths, whether or not a helper of any name exists.) */
 	var exec *ssa.Call
 	eachInstr(sh, func(i ssa.Instruction) {
 		if c, ok := i.(*ssa.Call); ok && "(*text/template.Template).Execute" == calleeName(c.Common()) {
@@ -469,18 +468,11 @@ func checkC07Reread(p *Prog, r *Report, ru *Rule, sh *ssa.Function) {
 	})
 	if nil == exec {
 		ru.Unproven(fnName(sh)+":execute", sh.Pos(), "no template execution found")
-	} else {
-		rs := valueRoots(exec.Common().Args[0], nil)
-		if 1 == len(rs) && "call" == rs[0].Kind && rs[0].V.(*ssa.Call).Common().StaticCallee() == rt && 0 == rs[0].Idx {
-			ru.OK(fnName(sh)+":template-source", posOf(exec), "the executed template is what readTemplate returned in this request")
-		} else {
-			ru.Bad(fnName(sh)+":template-source", posOf(exec), "the executed template comes from %s, not from a per-request readTemplate", rootsString(rs))
-		}
+		return
 	}
-	/* readTemplate: on the tmplf != "" edge every success return is the parse
-	of the bytes read from s.tmplf in this call. */
+	/* The test "is a template file configured". */
 	var emptyIf *ssa.If
-	for _, b := range rt.Blocks {
+	for _, b := range sh.Blocks {
 		if ifi := blockIf(b); nil != ifi {
 			c := decodeCond(ifi.Cond)
 			if fv, _ := loadedField(c.X); fv == tmplf && nil != c.Y {
@@ -491,7 +483,7 @@ func checkC07Reread(p *Prog, r *Report, ru *Rule, sh *ssa.Function) {
 		}
 	}
 	if nil == emptyIf {
-		ru.Bad(fnName(rt)+":file-branch", rt.Pos(), "readTemplate does not branch on whether a template file is configured")
+		ru.Bad(fnName(sh)+":file-branch", sh.Pos(), "the handler does not branch on whether a template file is configured")
 		return
 	}
 	dc := decodeCond(emptyIf.Cond)
@@ -499,25 +491,45 @@ func checkC07Reread(p *Prog, r *Report, ru *Rule, sh *ssa.Function) {
 	if !dc.Eq {
 		setSucc = 0
 	}
-	nret := 0
-	for _, b := range rt.Blocks {
-		ret, ok := b.Instrs[len(b.Instrs)-1].(*ssa.Return)
-		if !ok || !edgeDominates(emptyIf, setSucc, ret) {
+	/* What can be executed: every value the template operand can hold,
+	with the way it comes in. */
+	through := func(n string) bool {
+		switch n {
+		case "(*text/template.Template).Parse", "text/template.Must", "(*text/template.Template).Funcs", "(*text/template.Template).Option",
+			"(*strings.Builder).String", "(*bytes.Buffer).String", "(*bytes.Buffer).Bytes", "io.ReadAll", "io/ioutil.ReadAll", "bufio.NewReader":
+			return true
+		}
+		return false
+	}
+	nfile, ndef := 0, 0
+	for k, lf := range phiLeaves(exec.Common().Args[0]) {
+		c := fmt.Sprintf("%s:template-source#%d", fnName(sh), k+1)
+		if isNilConst(lf.V) {
+			continue /* An error path's placeholder; the body rule (no script on error) covers it. */
+		}
+		/* The configured default: only when no file is configured. */
+		if fv, _ := loadedField(lf.V); nil != fv && fv != tmplf {
+			ndef++
+			onEmpty := false
+			if nil != lf.From {
+				last := lf.From.Instrs[len(lf.From.Instrs)-1]
+				if last == ssa.Instruction(emptyIf) {
+					onEmpty = lf.From.Succs[1-setSucc] != lf.From.Succs[setSucc]
+				} else {
+					onEmpty = edgeDominates(emptyIf, 1-setSucc, last)
+				}
+			} else if in, ok := lf.V.(ssa.Instruction); ok {
+				onEmpty = edgeDominates(emptyIf, 1-setSucc, in) || !canReachEdge(emptyIf, setSucc, exec)
+			}
+			if onEmpty {
+				ru.OK(c, posOf(exec), "Server.%s is executed only when no template file is configured", fv.Name())
+			} else {
+				ru.Bad(c, posOf(exec), "the executed template can be Server.%s although a template file is configured: the file is not re-read for this request", fv.Name())
+			}
 			continue
 		}
-		if !isNilConst(retVal(ret, 1)) {
-			continue /* Error return. */
-		}
-		nret++
-		through := func(n string) bool {
-			switch n {
-			case "(*text/template.Template).Parse", "text/template.Must", "(*text/template.Template).Funcs", "(*text/template.Template).Option",
-				"(*strings.Builder).String", "(*bytes.Buffer).String", "(*bytes.Buffer).Bytes", "io.ReadAll", "io/ioutil.ReadAll", "bufio.NewReader":
-				return true
-			}
-			return false
-		}
-		rs := valueRoots(retVal(ret, 0), through)
+		/* Otherwise: the parse of what was read from s.tmplf in this call. */
+		rs := valueRoots(lf.V, through)
 		readOK := false
 		var other []string
 		var visit func(rs []Root, depth int)
@@ -533,8 +545,7 @@ func checkC07Reread(p *Prog, r *Report, ru *Rule, sh *ssa.Function) {
 					}
 				case "call" == x.Kind && "text/template.New" == x.Callee, "const" == x.Kind:
 				case ("alloc" == x.Kind || "other" == x.Kind) && depth < 3 && isBufferAlloc(x.V):
-					/* A local buffer: what was copied into it? */
-					fills, bad := bufferFills(rt, x.V)
+					fills, bad := bufferFills(sh, x.V)
 					other = append(other, bad...)
 					if 0 == len(fills) && 0 == len(bad) {
 						other = append(other, "an empty buffer")
@@ -548,15 +559,15 @@ func checkC07Reread(p *Prog, r *Report, ru *Rule, sh *ssa.Function) {
 			}
 		}
 		visit(rs, 0)
-		c := fmt.Sprintf("%s:configured-return#%d", fnName(rt), nret)
+		nfile++
 		if readOK && 0 == len(other) {
-			ru.OK(c, posOf(ret), "returns the parse of os.ReadFile(s.tmplf) done in this call")
+			ru.OK(c, posOf(exec), "the parse of os.ReadFile(s.tmplf) done in this request")
 		} else {
-			ru.Bad(c, posOf(ret), "with a template file configured, readTemplate can return a template not read from the file in this call (%s)", strings.Join(append(other, rootsString(rs)), "; "))
+			ru.Bad(c, posOf(exec), "with a template file configured, the template executed need not be the one read from the file in this request (%s)", strings.Join(append(other, rootsString(rs)), "; "))
 		}
 	}
-	if 0 == nret {
-		ru.Bad(fnName(rt)+":configured-return", rt.Pos(), "no success return on the configured-file branch")
+	if 0 == nfile {
+		ru.Bad(fnName(sh)+":configured-return", sh.Pos(), "the configured template file is never read and parsed on the way to the execution")
 	}
 	/* Handlers keep no state. */
 	nst := 0
@@ -603,22 +614,47 @@ func checkC07NoScriptOnError(p *Prog, r *Report, ru *Rule, sh *ssa.Function) {
 	var gates []gate
 	var exec *ssa.Call
 	eachInstr(sh, func(i ssa.Instruction) {
-		c, ok := i.(*ssa.Call)
-		if !ok {
-			return
-		}
-		switch {
-		case nil != c.Common().StaticCallee() && c.Common().StaticCallee() == p.Func(hsrvPkg, "Server", "readTemplate"):
-			gates = append(gates, gate{"template", extractOf(c, 1)})
-		case nil != c.Common().StaticCallee() && c.Common().StaticCallee() == p.Func(hsrvPkg, "Server", "c2URL"):
-			gates = append(gates, gate{"callback address", extractOf(c, 1)})
-		case "(*text/template.Template).Execute" == calleeName(c.Common()):
-			gates = append(gates, gate{"template execution", c})
+		if c, ok := i.(*ssa.Call); ok && "(*text/template.Template).Execute" == calleeName(c.Common()) {
 			exec = c
 		}
 	})
-	if 3 != len(gates) || nil == exec {
-		ru.Unproven(fnName(sh)+":gates", sh.Pos(), "%d of the three fallible steps (readTemplate, c2URL, Execute) found", len(gates))
+	if nil == exec {
+		ru.Unproven(fnName(sh)+":gates", sh.Pos(), "no template execution found")
+		return
+	}
+	/* The fallible steps: every call on the way to the execution which
+	returns an error (reading and parsing the template, working out the
+	callback address, ...) and the execution itself. */
+	eachInstr(sh, func(i ssa.Instruction) {
+		c, ok := i.(*ssa.Call)
+		if !ok || (c != exec && !canReach(locOf(c), exec)) {
+			return
+		}
+		var ev ssa.Value
+		switch t := c.Type().(type) {
+		case *types.Tuple:
+			if t.Len() > 0 && isErrorType(t.At(t.Len()-1).Type()) {
+				ev = extractOf(c, t.Len()-1)
+				if nil == ev {
+					return /* discarded */
+				}
+			}
+		default:
+			if isErrorType(c.Type()) && 0 != len(*c.Referrers()) {
+				ev = c
+			}
+		}
+		if nil == ev {
+			return
+		}
+		what := calleeName(c.Common())
+		if c == exec {
+			what = "template execution"
+		}
+		gates = append(gates, gate{what, ev})
+	})
+	if len(gates) < 3 {
+		ru.Unproven(fnName(sh)+":gates", sh.Pos(), "%d fallible steps found on the way to the response; reading/parsing the template, the callback address and the execution were expected", len(gates))
 		return
 	}
 	/* Execute writes into a buffer allocated in this call, not into w. */
@@ -648,17 +684,19 @@ func checkC07NoScriptOnError(p *Prog, r *Report, ru *Rule, sh *ssa.Function) {
 				case "(net/http.ResponseWriter).WriteHeader":
 					if k, ok := constInt(x.Common().Args[0]); ok && k >= 400 {
 						/* Must be on an error edge. */
-						onErr := false
+						/* Not reachable unless some step failed: with
+						every failing edge taken away there is no way
+						here. */
+						fail := map[Edge]bool{}
 						for _, g := range gates {
 							if nil == g.v {
 								continue
 							}
 							for _, t := range nilTestsOf(sh, g.v) {
-								if edgeDominates(t.If, 1-t.NilSucc, x) {
-									onErr = true
-								}
+								fail[Edge{t.If.Block().Index, t.If.Block().Succs[1-t.NilSucc].Index}] = true
 							}
 						}
+						onErr := nil == reachQ{From: entryLoc(sh), NoEdges: fail, Target: func(j ssa.Instruction) bool { return j == ssa.Instruction(x) }}.run()
 						if onErr {
 							ru.OK(fmt.Sprintf("%s#%d", c, k), posOf(x), "error status on an error edge")
 						} else {
@@ -675,19 +713,22 @@ func checkC07NoScriptOnError(p *Prog, r *Report, ru *Rule, sh *ssa.Function) {
 							okAll = false
 							continue
 						}
-						dom := false
-						for _, t := range nilTestsOf(sh, g.v) {
-							if edgeDominates(t.If, t.NilSucc, x) {
-								dom = true
-							}
-						}
-						if !dom {
+						tests := nilTestsOf(sh, g.v)
+						if 0 == len(tests) {
 							okAll = false
-							ru.Bad(c+":after-"+g.what, posOf(x), "the response body can be written although the %s failed", g.what)
+							ru.Bad(c+":after-"+g.what, posOf(x), "the error of %s is never tested: the response body can be written although it failed", g.what)
+							continue
+						}
+						for _, t := range tests {
+							if canReachEdge(t.If, 1-t.NilSucc, x) {
+								okAll = false
+								ru.Bad(c+":after-"+g.what, posOf(x), "the response body can be written although %s failed", g.what)
+								break
+							}
 						}
 					}
 					if okAll {
-						ru.OK(c, posOf(x), "below the nil edges of all three errors")
+						ru.OK(c, posOf(x), "unreachable once any of the %d fallible steps has failed", len(gates))
 					}
 					/* And what is written is the buffer. */
 					if "(*bytes.Buffer).WriteTo" == name || "io.Copy" == name {
